@@ -503,6 +503,7 @@ def seq_family(pfx, extra_len=2, samedev=1):
         (2, 0, {}, "next"), (3, 0, {}, "next"), (0, 0, {}, "next"), (0, 0, {"tx": 1}, "next"), (0, 0, {"bad": 1}, "next"), (1, 0, {"ln": 3}, "next"),
         (3, 0, {}, "stale"), (3, 0, {}, "skip"), (3, 0, {"vx": 1}, "next"),
         (1, 1, {}, "next"), (0, 1, {}, "next"), (0, 1, {"bad": 2}, "next"), (3, 1, {}, "next"), (0, 1, {"kind": 1}, "next"),
+        (0, 0, {"kind": 3}, "next"),   # runt frame of the own endpoint (header + 5 bytes)
     ]
     shapes = []
     for combo in itertools.product(alpha, repeat=extra_len):
@@ -521,7 +522,7 @@ def seq_family(pfx, extra_len=2, samedev=1):
         d.update({"START0": 65534, "START1": 65535})
         shapes.append(d)
     if extra_len >= 3:
-        # 14^3 = 2744 continuations cost ~1.5 h per property; the thorough tier decides a VERIF_SEED-chosen 500 of them per
+        # 15^3 = 3375 continuations cost ~1.5 h per property; the thorough tier decides a VERIF_SEED-chosen 500 of them per
         # run (each one for all contents); successive seeds cover the family
         import random
         rnd = random.Random(1000 * pfx + int(os.environ.get("VERIF_SEED", "0") or 0))
